@@ -67,6 +67,10 @@ def register(reg, P):
     fam["scan_vec_carry"] = (lambda xs, c0: lax.scan(lambda c, a: (c + a, c.sum()), c0, xs), [((2, 3), F32), ((3,), F32)])
     fam["scan_reverse"] = (lambda xs: lax.scan(lambda c, a: (c + a, c * a), 0.0, xs, reverse=True), [((3,), F32)])
     fam["scan_unroll2"] = (lambda xs: lax.scan(lambda c, a: (c + a, c * a), 0.0, xs, unroll=2), [((4,), F32)])
+    # reverse scans: either rejected loudly or exported with the stacked outputs filled back to front
+    fam["scan_reverse_no_xs"] = (lambda x: lax.scan(lambda c, _: (c * 2.0 + 1.0, c), x, None, length=4, reverse=True), [((2,), F32)])
+    fam["scan_reverse_no_xs_ys_only"] = (lambda x: lax.scan(lambda c, _: (c + 1.0, c * c), x, None, length=3, reverse=True)[1], [((), F32)])
+    fam["scan_reverse_two_xs"] = (lambda xs, ys: lax.scan(lambda c, ab: (c + ab[0], c * ab[1]), 0.5, (xs, ys), reverse=True), [((3,), F32), ((3,), F32)])
     fam["scan_no_xs"] = (lambda x: lax.scan(lambda c, _: (c * 2.0, c), x, None, length=3), [((2,), F32)])
     fam["scan_int_carry"] = (lambda xs: lax.scan(lambda c, a: (c + a, c), jnp.int32(0), xs), [((3,), I32)])
     fam["scan_cond_inside"] = (lambda xs: lax.scan(lambda c, a: (lax.cond(a > 0, lambda u: u + a, lambda u: u - a, c), c), 0.0, xs), [((3,), F32)])
